@@ -70,6 +70,10 @@ class ClusterList(Attribute):
         try:
             for cluster in value:
                 cluster_raw += netaddr.IPAddress(cluster).packed
+            if len(cluster_raw) > 255:
+                # more than 63 cluster ids: the attribute length needs two octets
+                return struct.pack("!B", cls.FLAG + AttributeFlag.EXTENDED_LENGTH) + struct.pack('!B', cls.ID) \
+                    + struct.pack("!H", len(cluster_raw)) + cluster_raw
             return struct.pack("!B", cls.FLAG) + struct.pack('!B', cls.ID) \
                 + struct.pack("!B", len(cluster_raw)) + cluster_raw
         except Exception:
